@@ -290,6 +290,18 @@ def argspec_none(ctx, pid, funcs):
       continue
     ctx.assume('T14')
     g, facts = std_facts(ctx.prog, f)
+    # a function that tests the field anywhere (truthiness, None-ness, `or` default) has the case in mind: its uses are left to
+    # the path rules; the pattern reported here is a use in a function that never considers None at all
+    def tested(attr):
+      for x in walk_local(f.node):
+        if isinstance(x, ast.Attribute) and x.attr == attr:
+          q_ = getattr(x, 'parent', None)
+          if (isinstance(q_, (ast.If, ast.IfExp, ast.While)) and q_.test is x) or isinstance(q_, ast.BoolOp) or \
+              (isinstance(q_, ast.UnaryOp) and isinstance(q_.op, ast.Not)) or \
+              (isinstance(q_, ast.Compare) and any(isinstance(o, (ast.Is, ast.IsNot)) for o in q_.ops)):
+            return True
+      return False
+    uses = [a for a in uses if not tested(a.attr)]
     for a in uses:
       p_ = getattr(a, 'parent', None)
       # harmless positions: the guard itself, `x or {}`, comparison with None, passing it on
